@@ -67,7 +67,9 @@ type SpyMetastore struct {
 	// alternatives of every call (the call itself is then answered normally).
 	Cancel    func()
 	Cancelled int
-	objs      map[string]*vsched.Obj // one scheduling identity per key id: calls on different ids commute
+	// Slow, when set together with FaultMode, adds "this call takes long: the clock moves on while it is in flight".
+	Slow func()
+	objs map[string]*vsched.Obj // one scheduling identity per key id: calls on different ids commute
 }
 
 func NewSpyMetastore() *SpyMetastore {
@@ -118,18 +120,21 @@ func (m *SpyMetastore) fault(op string, kinds int) int {
 	if m.FaultMode == 0 {
 		return FaultNone
 	}
+	// further alternatives that let the call itself succeed: the caller's context is cancelled while the call is in
+	// flight (the store ignores the context), the call is slow and the wall clock moves on meanwhile
+	var extras []func()
 	if m.Cancel != nil {
-		// one more alternative: the caller's context is cancelled while this call is in flight; the store itself ignores
-		// the context and answers normally
-		c := vsched.Choose(kinds+1, "ms."+op)
-		if c == kinds {
-			m.Cancel()
-			m.Cancelled++
-			return FaultNone
-		}
-		return c
+		extras = append(extras, func() { m.Cancel(); m.Cancelled++ })
 	}
-	return vsched.Choose(kinds, "ms."+op)
+	if m.Slow != nil {
+		extras = append(extras, m.Slow)
+	}
+	c := vsched.Choose(kinds+len(extras), "ms."+op)
+	if c >= kinds {
+		extras[c-kinds]()
+		return FaultNone
+	}
+	return c
 }
 
 func (m *SpyMetastore) yield(op, id string) {
@@ -294,9 +299,10 @@ type SpyKMS struct {
 	// EncryptInputRefs keeps the very slices passed to EncryptKey (not copies): after the operation they must be
 	// zero or be the memory of a secret (C10: no readable transient copy of a key outlives the call).
 	EncryptInputRefs [][]byte
-	// Cancel: see SpyMetastore.Cancel.
+	// Cancel, Slow: see SpyMetastore.
 	Cancel    func()
 	Cancelled int
+	Slow      func()
 	Metastore *SpyMetastore // for a common call index with the metastore script, optional
 	NoYield   bool
 	Mute      bool
@@ -340,16 +346,19 @@ func (k *SpyKMS) fault(op string) bool {
 	if k.FaultMode == 0 {
 		return false
 	}
+	var extras []func()
 	if k.Cancel != nil {
-		c := vsched.Choose(3, "kms."+op)
-		if c == 2 {
-			k.Cancel()
-			k.Cancelled++
-			return false
-		}
-		return c != 0
+		extras = append(extras, func() { k.Cancel(); k.Cancelled++ })
 	}
-	return vsched.Choose(2, "kms."+op) != 0
+	if k.Slow != nil {
+		extras = append(extras, k.Slow)
+	}
+	c := vsched.Choose(2+len(extras), "kms."+op)
+	if c >= 2 {
+		extras[c-2]()
+		return false
+	}
+	return c != 0
 }
 
 func (k *SpyKMS) EncryptKey(_ context.Context, key []byte) ([]byte, error) {
